@@ -152,3 +152,35 @@ pub struct Wide {
     pub tup: (u8, i8, bool),
     pub seq: Vec<Option<u16>>,
 }
+
+// attributes that are none of serde's business must not change the described shape: layout attributes in particular
+// (`repr(transparent)` is a statement about memory layout; serde still writes a newtype struct / a one-field struct)
+#[derive(Serialize, postcard_schema::Schema)]
+#[repr(transparent)]
+pub struct ReprTransparentNewtype(pub f32);
+
+#[derive(Serialize, postcard_schema::Schema)]
+#[repr(transparent)]
+pub struct ReprTransparentNamed {
+    pub raw: u16,
+}
+
+#[derive(Serialize, postcard_schema::Schema)]
+#[repr(C)]
+pub struct ReprC {
+    pub a: u8,
+    pub b: u32,
+}
+
+#[derive(Serialize, postcard_schema::Schema)]
+#[repr(C, packed)]
+pub struct ReprPacked(pub u8, pub u16);
+
+#[derive(Serialize, postcard_schema::Schema, Clone, Copy, Debug, PartialEq)]
+#[allow(dead_code)]
+#[repr(i8)]
+pub enum ReprI8 {
+    Neg = -3,
+    Zero = 0,
+    Pos = 7,
+}
